@@ -310,6 +310,24 @@ def main():
         if not extract.get("errors"):
             obligations.append(("translate:/repo -> Gen/*.lean", True, "changed: %s" % extract.get("changed")))
 
+        harness_ok, wasm_ok = True, True
+        rc, out, err = sh(["cargo", "build", "--offline"], cwd=HARNESS, timeout=3000)
+        harness_ok = rc == 0
+        if not harness_ok:
+            obligations.append(("harness builds against /repo (tie D)", False, (err or out)[-600:]))
+        rc, out, err = sh(["cargo", "build", "--offline"], cwd=HARNESS_W, timeout=3000)
+        wasm_ok = rc == 0
+        if wasm_ok:
+            rc, out, err = sh([SFW, "glue", os.path.join(LEAN, "SfVerif", "Gen", "Glue.lean")], timeout=600)
+            if rc != 0:
+                wasm_ok = False
+                if cfg.get("wasm"):
+                    obligations.append(("translate: the trampoline's emitted glue -> Gen/Glue.lean", False, (err or out)[-600:]))
+            elif cfg.get("wasm"):
+                obligations.append(("translate: the trampoline's emitted glue -> Gen/Glue.lean", True, out.strip()))
+        elif cfg.get("wasm"):
+            obligations.append(("wasm harness builds against /repo (tie D)", False, (err or out)[-600:]))
+
         thms = theorems_of(prop)
         targets = ["sfdriver"]
         if thms or os.path.exists(os.path.join(LEAN, "SfVerif", "Props", prop + ".lean")):
@@ -364,17 +382,6 @@ def main():
         bad_src = audit_sources()
         obligations.append(("source audit (no sorry/admit/axiom/native_decide/implemented_by/unsafe)", not bad_src, "; ".join(bad_src[:5])))
 
-        harness_ok, wasm_ok = True, True
-        if cfg["gen"] or True:
-            rc, out, err = sh(["cargo", "build", "--offline"], cwd=HARNESS, timeout=3000)
-            harness_ok = rc == 0
-            if not harness_ok:
-                obligations.append(("harness builds against /repo (tie D)", False, (err or out)[-600:]))
-        if cfg.get("wasm"):
-            rc, out, err = sh(["cargo", "build", "--offline"], cwd=HARNESS_W, timeout=3000)
-            wasm_ok = rc == 0
-            if not wasm_ok:
-                obligations.append(("wasm harness builds against /repo (tie D)", False, (err or out)[-600:]))
         # keep private copies of the binaries so a concurrent rebuild cannot disturb this run
     driver_ok = os.path.exists(DRIVER)
 
@@ -382,9 +389,9 @@ def main():
     for e in load_known():
         if e["property"] != prop:
             continue
-        if not harness_ok:
-            break
         if e["reproducer"].get("tool") == "sfw" and not wasm_ok:
+            continue
+        if e["reproducer"].get("tool") != "sfw" and not harness_ok:
             continue
         still, got = reproduces(e)
         if e["status"] == "known":
@@ -467,6 +474,42 @@ def main():
                     "note": "the implementation's answer differs from the verified model's on these operations"})
                 violations.append(("correspondence broken (%d case(s)); first: `%s` -> impl `%s` / model `%s`" % (
                     n_dis, mini[i][:80] if i < len(mini) else "?", a[i][:60] if i < len(a) else "?", b[i][:60] if i < len(b) else "?"), rp, True))
+        if cfg.get("wasm") and wasm_ok:
+            sub = cfg["wasm"].lower()
+            n_sc = {"c04": 360, "c07": 160}[sub] * (10 if tier == "thorough" else 1)
+            ops_p = os.path.join(WORK, "%s-%s-%d.ops" % (sub, tier, seed))
+            impl_p = os.path.join(WORK, "%s-%s-%d.impl" % (sub, tier, seed))
+            rc, out, err = sh([SFW, sub, str(seed), str(n_sc), ops_p, impl_p], timeout=7000)
+            if rc != 0:
+                rp = write_replay(prop, tier, seed, "harness-crash", {"stderr": err[-800:], "tool": "sfw " + sub})
+                violations.append(("the wasm harness failed (%s)" % err.strip()[-200:], rp, False))
+            else:
+                wj = json.loads(out)
+                model_p = ops_p + ".model"
+                run_driver(ops_p, model_p)
+                ops_l = open(ops_p).read().split("\n")
+                a_l = open(impl_p).read().split("\n")
+                b_l = open(model_p).read().split("\n")
+                n_lines = len([l for l in ops_l if l])
+                stats_all["lines"] += wj.get("scenarios", wj.get("cases", 0))
+                stats_all["cases"] += n_lines
+                for k, v in wj.get("hist", {}).items():
+                    stats_all["hist"][k] = stats_all["hist"].get(k, 0) + v
+                stats_all["samples"] += ["%s -> %s" % (ops_l[i][:140], a_l[i][:120]) for i in range(min(3, n_lines))]
+                stats_all["oracle_failures"] += wj.get("oracle_failures", [])
+                if wj.get("known_f8"):
+                    notes.append("%d scenario(s) hit the known finding F8 (rejected string write copied anyway)" % wj["known_f8"])
+                for l in ops_l:
+                    if l:
+                        distinct.add(l)
+                dis = [(i, ops_l[i], a_l[i] if i < len(a_l) else "<missing>", b_l[i] if i < len(b_l) else "<missing>")
+                       for i in range(n_lines) if (a_l[i] if i < len(a_l) else None) != (b_l[i] if i < len(b_l) else None)]
+                if dis:
+                    i, o, a, b = dis[0]
+                    rp = write_replay(prop, tier, seed, "disagreement", {
+                        "ops": [o], "impl": [a], "model": [b], "first_difference_at": 0, "cases_disagreeing": len(dis),
+                        "note": "wasmtime execution of the real trampoline output (impl) vs the Lean model (model)"})
+                    violations.append(("correspondence broken (%d line(s)); first: `%s` -> impl `%s` / model `%s`" % (len(dis), o[:100], a[:80], b[:80]), rp, True))
         for o in stats_all["oracle_failures"][:3]:
             rp = write_replay(prop, tier, seed, "oracle", {"failure": o, "all": stats_all["oracle_failures"][:20]})
             violations.append(("implementation vs oracle: " + o[:200], rp, True))
